@@ -490,7 +490,8 @@ class FileIndex(object):
     @classmethod
     def _to_raw(cls, data):
         time_sec = data['time']
-        idx = np.isnan(time_sec)
+        # Times that cannot be represented in the 32-bit seconds field are stored as "no P1 time", like NaN.
+        idx = np.isnan(time_sec) | ~((time_sec >= 0) & (time_sec < Timestamp._INVALID))
         # Ignore `RuntimeWarning: invalid value encountered in cast` since we want the NaN to be cast to int.
         np.seterr(invalid="ignore")
         raw_data = data[['time', 'type', 'offset']].astype(dtype=cls._RAW_DTYPE)
